@@ -430,6 +430,9 @@ var C11Concurrent func(c *eng.Ctx, next func() (int, bool))
 // then closed and the C11 order rules applied.
 var C11ResolveRace func(c *eng.Ctx, next func() (int, bool))
 
+// C11CreateVsClose is installed by package conc (CreateScope overlapping the Close of its parent).
+var C11CreateVsClose func(c *eng.Ctx, next func() (int, bool))
+
 // MonC11Exported lets package conc apply the C11 order oracle.
 func MonC11Exported(r *Run, o *Obs) ([]Finding, int) { return MonC11(r, o) }
 
@@ -506,6 +509,9 @@ func runC11(c *eng.Ctx) {
 		}
 		if C11ResolveRace != nil {
 			C11ResolveRace(c, cr.next)
+		}
+		if C11CreateVsClose != nil {
+			C11CreateVsClose(c, cr.next)
 		}
 	}()
 	n := c.Pick(1000, 30000)
